@@ -85,6 +85,48 @@ pub fn generic_session(
             rep.fail("oracle", e, vec![op_line_call(c)], vec![o.line(false)], vec![]);
         }
     }
+    // The property quantifies over every entry point INCLUDING the `_with` forms on objects that
+    // were used before: run the same cases again in chunks that share one LinkageState/Dendrogram
+    // per float width and apply the oracle to those results as well.
+    let chunks: Vec<Vec<Case>> = cases.chunks(6).map(|c| c.to_vec()).collect();
+    let chunks = Arc::new(chunks);
+    let reused = match par_map(chunks.clone(), ctx.threads, |_| std::time::Duration::from_secs(120), |chunk: &Vec<Case>| {
+        let mut st64 = kodama::LinkageState::<f64>::new();
+        let mut d64 = kodama::Dendrogram::<f64>::new(0);
+        let mut st32 = kodama::LinkageState::<f32>::new();
+        let mut d32 = kodama::Dendrogram::<f32>::new(0);
+        chunk
+            .iter()
+            .map(|c| {
+                if c.w32 {
+                    run_with_t::<f32>(&mut st32, &mut d32, c.alg, c.method, c.n, &c.bits)
+                } else {
+                    run_with_t::<f64>(&mut st64, &mut d64, c.alg, c.method, c.n, &c.bits)
+                }
+            })
+            .collect::<Vec<Outcome>>()
+    }) {
+        Ok(v) => v,
+        Err(i) => {
+            rep.fail("hang", "reused-state chunk did not finish".into(), chunks[i].iter().enumerate().map(|(k, c)| op_line_with(k, c)).collect(), vec![], vec![]);
+            return;
+        }
+    };
+    for (chunk, outs) in chunks.iter().zip(&reused) {
+        for (k, (c, o)) in chunk.iter().zip(outs).enumerate() {
+            rep.count("reused_state_calls");
+            rep.oracle_checked += 1;
+            if let Err(e) = oracle_fn(c, o) {
+                rep.fail(
+                    "oracle",
+                    format!("on a reused LinkageState/Dendrogram (call {} of a shared-object chunk): {}", k, e),
+                    chunk[..=k].iter().map(|c| op_line_with(0, c)).collect(),
+                    vec![o.line(false)],
+                    vec![],
+                );
+            }
+        }
+    }
 }
 
 fn n_cases(ctx: &Ctx, quick: usize, thorough: usize) -> usize {
@@ -165,6 +207,18 @@ pub fn c04(ctx: &Ctx, rep: &mut Report) {
         &mut rng,
         &GenSpec { count: n_cases(ctx, 2500, 30000), max_n: if ctx.thorough { 400 } else { 60 }, classes: &gen::CLASSES, algs: &ALGS, methods: &[Method::Single], min_n: 2 },
     );
+    // deterministic boundary family for the active-list range queries (see gen::linewalk)
+    for &l in &[15usize, 16, 17, 31, 32, 33, 63, 64, 65] {
+        for &a in &[1usize, 2, 5] {
+            let n = a + l + 3;
+            for alg in [Alg::Mst, Alg::Linkage, Alg::Nnchain, Alg::Generic, Alg::Primitive] {
+                let w32 = (l + a) % 2 == 0;
+                let vals = gen::linewalk(n, a, l);
+                cases.push(Case { alg, method: Method::Single, w32, n, bits: gen::to_bits("linewalk", w32, &vals), class: "linewalk" });
+            }
+        }
+    }
+    crate::unit::active_unit(ctx, rep);
     if ctx.thorough {
         for n in [1000usize, 2000] {
             for class in ["lattice", "uniform", "euclid"] {
@@ -228,6 +282,11 @@ pub fn c06(ctx: &Ctx, rep: &mut Report) {
         let method = *rng.pick(&METHODS);
         let w32 = rng.below(2) == 0;
         let vals0 = gen::matrix(&mut rng, class, n);
+        // rescale by an exact power of two: tie-freeness is a relative notion, so inputs of very
+        // small or large magnitude are as much in the property's domain as unit-scale ones
+        let k = *rng.pick(&[0i32, 0, -20, -40, 20, if w32 { -30 } else { -60 }]);
+        let vals0: Vec<f64> = vals0.iter().map(|x| x * 2f64.powi(k)).collect();
+        rep.count(&format!("scale.2^{}", k));
         let bits = gen::to_bits(class, w32, &vals0);
         let vals: Vec<f64> = bits.iter().map(|&b| bits_to_f64(w32, b)).collect();
         let nv = oracle::naive_cluster(method, n, &vals);
@@ -254,6 +313,24 @@ pub fn c06(ctx: &Ctx, rep: &mut Report) {
         tally(rep, c, o);
     }
     correspond(ctx, rep, &cases, &impl_out);
+    // second pass: the same calls through the `_with` forms on ONE LinkageState/Dendrogram per width
+    // shared by the whole sequence (the property speaks about every entry point, not only fresh objects)
+    let mut reused_out: Vec<Outcome> = Vec::with_capacity(cases.len());
+    {
+        let mut st64 = kodama::LinkageState::<f64>::new();
+        let mut d64 = kodama::Dendrogram::<f64>::new(0);
+        let mut st32 = kodama::LinkageState::<f32>::new();
+        let mut d32 = kodama::Dendrogram::<f32>::new(0);
+        for c in cases.iter() {
+            reused_out.push(if c.w32 {
+                run_with_t::<f32>(&mut st32, &mut d32, c.alg, c.method, c.n, &c.bits)
+            } else {
+                run_with_t::<f64>(&mut st64, &mut d64, c.alg, c.method, c.n, &c.bits)
+            });
+        }
+    }
+    for pass in 0..2 {
+    let impl_out: &Vec<Outcome> = if pass == 0 { &impl_out } else { &reused_out };
     for &(start, len) in &groups {
         let c0 = &cases[start];
         let vals = vals_of(c0);
@@ -281,9 +358,11 @@ pub fn c06(ctx: &Ctx, rep: &mut Report) {
                 Ok(())
             })();
             if let Err(e) = r {
+                let e = if pass == 1 { format!("on reused LinkageState/Dendrogram (sequence of all cases of this run): {}", e) } else { e };
                 rep.fail("oracle", e, vec![op_line_call(c)], vec![o.line(false)], vec![]);
             }
         }
+    }
     }
 }
 
@@ -498,6 +577,10 @@ fn mono_map(kind: usize, x: f64) -> f64 {
         1 => x * x * x + 3.0,
         2 => (x / 8.0).exp(),
         3 => (x + 200.0).ln(),
+        // shrink to magnitudes where distinct values differ by less than machine epsilon in
+        // absolute terms (an absolute tolerance anywhere in the code would conflate them)
+        5 => x * 2f64.powi(-60),
+        6 => x * 2f64.powi(-24),
         _ => x,
     }
 }
@@ -545,7 +628,7 @@ pub fn c10(ctx: &Ctx, rep: &mut Report) {
         maps.push(table);
     };
     for c in base {
-        let kind = rng.below(5) as usize;
+        let kind = rng.below(7) as usize;
         // distinct input values sorted
         let mut vs: Vec<u64> = c.bits.clone();
         vs.sort_by(|a, b| bits_to_f64(c.w32, *a).partial_cmp(&bits_to_f64(c.w32, *b)).unwrap());
@@ -566,7 +649,7 @@ pub fn c10(ctx: &Ctx, rep: &mut Report) {
             rep.count("skipped_map_not_injective");
             continue;
         }
-        rep.count(&format!("map.{}", ["affine", "cubic", "exp", "log", "rank"][kind]));
+        rep.count(&format!("map.{}", ["affine", "cubic", "exp", "log", "rank", "tiny60", "tiny24"][kind]));
         add_pair(&mut cases, &mut maps, c, table);
     }
     // exhaustive weak orderings, n = 4 (6 entries): original = ranks, image = cubic map of ranks
@@ -587,7 +670,12 @@ pub fn c10(ctx: &Ctx, rep: &mut Report) {
                 let mut vs = bits.clone();
                 vs.sort();
                 vs.dedup();
-                let table: Vec<(u64, u64)> = vs.iter().map(|&b| (b, f64_to_bits(w32, mono_map(1, bits_to_f64(w32, b)) * 0.5))).collect();
+                // alternate the image: cubic, or shrunk to 2^-60 / 2^-24 (f32) magnitudes
+                let table: Vec<(u64, u64)> = if wi % 2 == 0 {
+                    vs.iter().map(|&b| (b, f64_to_bits(w32, mono_map(1, bits_to_f64(w32, b)) * 0.5))).collect()
+                } else {
+                    vs.iter().map(|&b| (b, f64_to_bits(w32, mono_map(if w32 { 6 } else { 5 }, bits_to_f64(w32, b))))).collect()
+                };
                 add_pair(&mut cases, &mut maps, Case { alg, method, w32, n: 4, bits, class: "weakorder" }, table);
             }
         }
@@ -698,6 +786,10 @@ pub fn c11(ctx: &Ctx, rep: &mut Report) {
         }
         let w32 = rng.below(2) == 0;
         let vals0 = gen::matrix(&mut rng, class, n);
+        // exact power-of-two rescaling: tie-freeness is relative, small/large units are in the domain
+        let k = *rng.pick(&[0i32, 0, -20, -40, 20, if w32 { -30 } else { -60 }]);
+        let vals0: Vec<f64> = vals0.iter().map(|x| x * 2f64.powi(k)).collect();
+        rep.count(&format!("scale.2^{}", k));
         let bits = gen::to_bits(class, w32, &vals0);
         let vals: Vec<f64> = bits.iter().map(|&b| bits_to_f64(w32, b)).collect();
         if !(oracle::naive_cluster(method, n, &vals).margin > 64.0 * oracle::tol_for(w32)) {
@@ -726,6 +818,24 @@ pub fn c11(ctx: &Ctx, rep: &mut Report) {
         tally(rep, c, o);
     }
     correspond(ctx, rep, &cases, &impl_out);
+    // second pass: the whole sequence (D, then P(D), then the next pair …) through the `_with` forms on
+    // ONE LinkageState/Dendrogram per width
+    let mut reused_out: Vec<Outcome> = Vec::with_capacity(cases.len());
+    {
+        let mut st64 = kodama::LinkageState::<f64>::new();
+        let mut d64 = kodama::Dendrogram::<f64>::new(0);
+        let mut st32 = kodama::LinkageState::<f32>::new();
+        let mut d32 = kodama::Dendrogram::<f32>::new(0);
+        for c in cases.iter() {
+            reused_out.push(if c.w32 {
+                run_with_t::<f32>(&mut st32, &mut d32, c.alg, c.method, c.n, &c.bits)
+            } else {
+                run_with_t::<f64>(&mut st64, &mut d64, c.alg, c.method, c.n, &c.bits)
+            });
+        }
+    }
+    for pass in 0..2 {
+    let impl_out: &Vec<Outcome> = if pass == 0 { &impl_out } else { &reused_out };
     for (p, perm) in perms.iter().enumerate() {
         let (c, o1, o2) = (&cases[2 * p], &impl_out[2 * p], &impl_out[2 * p + 1]);
         rep.oracle_checked += 1;
@@ -759,8 +869,10 @@ pub fn c11(ctx: &Ctx, rep: &mut Report) {
             Ok(())
         })();
         if let Err(e) = r {
+            let e = if pass == 1 { format!("on reused LinkageState/Dendrogram (sequence of all cases of this run): {}", e) } else { e };
             rep.fail("oracle", e, vec![op_line_call(c), op_line_call(&cases[2 * p + 1])], vec![o1.line(false), o2.line(false)], vec![]);
         }
+    }
     }
 }
 
